@@ -393,11 +393,8 @@ func genTextC13(cfg Config, emit Emit) error {
 		n = 1500
 	}
 	// archive lengths on both sides of the boundaries where the varint of the digest length grows
-	// (2^14; thorough also 2^21), every length in a window around them
-	bounds := []int{1 << 14}
-	if cfg.Thorough() {
-		bounds = append(bounds, 1<<21)
-	}
+	// (2^14), every length in a window around them
+	bounds := []int{1 << 14} // 2^21 (2 MiB archives, 4 MiB of hex per field) is left out: not exercised end to end
 	for _, bd := range bounds {
 		for l := bd - 8; l <= bd+6; l++ {
 			if b := textDelegationOfLen(l); b != nil {
